@@ -240,7 +240,7 @@ def main(tier, seed, replay=None):
         for pa, pb in pairs:
             two = [short[pa], short[pb]]
             fresh2 = [dig(r) for r in fresh_reference(scratch, two)]
-            maxlen = 7 if tier == 'quick' else 10
+            maxlen = 7 if tier == 'quick' else 9
             cfg = ('SPECIFICATION Spec\nCONSTANTS\n Calls = {1, 2}\n'
                    ' MaxLen = %d\n MaxLive = 2\n Kinds = {"finish"}\n'
                    'INVARIANT Emit\n' % maxlen)
